@@ -12,7 +12,9 @@ class Plugin(C03Plugin):
     RUN_MODULE = "C04.Run"
     GEN = ["Ssdp"]
     DEPENDS = ["C16", "C03"]
-    CLAUSES = {1: "notify_exact", 2: "snapshot"}
+    CLAUSES = {1: "notify_exact", 2: "snapshot",
+               # C03's clauses on the same observations: the device table the expectation is relative to
+               11: "tracker_presence", 12: "tracker_purged", 13: "tracker_byebye_exact", 14: "tracker_invalid_inert", 15: "tracker_valid_to"}
     SHARD = 150
     RULE = ("the history space of C03 with BOOTID/CONFIGID/custom header values and header spellings varied, through the "
             "synchronous and the coroutine callback; non-trivial = at least one 'changed' and one 'alive'/suppressed decision; "
